@@ -30,7 +30,7 @@ ANSWER_LAYER = re.compile(r"(chalk-solve/src/infer/|chalk-solve/src/infer\.rs|ch
 # ---------------------------------------------------------------------------------------------
 
 BASE_ITEMS = ["struct S0 {}", "struct S1<T> {}", "struct S2<T, U> {}", "struct S3<T, U, V> {}", "struct R<'a, T> {}", "struct C<const N> {}", "struct I32 {}",
-              "trait Tr0 {}", "trait Tr1<T> {}", "trait TrL<'a> {}", "trait TrC<const N> {}", "trait Id {}"]
+              "trait Tr0 {}", "trait Tr1<T> {}", "trait TrL<'a> {}", "trait TrC<const N> {}", "trait Id {}", "trait Triv {}", "impl Triv for S0 {}"]
 # (impl text, atom patterns that the impl can satisfy; {T0} {T1} types, {L0} {L1} lifetimes, {C0} {C1} consts)
 IMPLS = [
     ("impl Tr0 for S0 {}", ["{T0}: Tr0", "S0: Tr0"]),
@@ -118,6 +118,34 @@ class OwnGen:
             fill = {"T0": self.ty(scope, 1), "T1": self.ty(scope, 1), "L0": self.lt(scope), "L1": self.lt(scope), "C0": self.cst(scope), "C1": self.cst(scope)}
             return p.format(**fill)
         return "%s = %s" % (self.ty(scope), self.ty(scope, 1))
+
+    def goal_nonpeel(self):
+        """An inner quantifier prefix that into_peeled_goal cannot peel (it sits inside a conjunction), so the query has
+        fewer universes than the solver creates internally:  exists<T..> { G0, forall<U..> { exists<'a / V / const N> { T = C<..> } } }
+        with the inner unknown in an invariant ADT parameter position (also through & and fn pointers)."""
+        t = self.fresh("T")
+        outer = [("T", t)]
+        if self.r.random() < 0.3:
+            outer.append(("T", self.fresh("T")))
+        u = self.fresh(self.r.choice(["T", "T", "L", "C"]))
+        kind = self.r.choice(["L", "L", "T", "C"])
+        a = self.fresh(kind)
+        filler = self.r.choice(["S0", "I32", outer[-1][1]])
+        if kind == "L":
+            val = self.r.choice(["R<%s, %s>" % (a, filler), "S1<R<%s, %s>>" % (a, filler), "&%s %s" % (a, filler), "S2<&%s S0, %s>" % (a, filler),
+                                 "fn(R<%s, S0>) -> %s" % (a, filler), "S3<S0, R<%s, I32>, %s>" % (a, filler)])
+        elif kind == "T":
+            val = self.r.choice(["S1<%s>" % a, "S2<%s, %s>" % (a, filler), "R<'static, %s>" % a, "&'static %s" % a, "fn(%s) -> %s" % (a, filler), "S3<%s, S1<%s>, S0>" % (a, a)])
+        else:
+            val = self.r.choice(["C<%s>" % a, "S2<C<%s>, %s>" % (a, filler), "S1<C<%s>>" % a, "[%s; %s]" % (filler, a)])
+        decl = lambda v: ("const " + v) if v.startswith("N") else v
+        eq = "%s = %s" % (t, val) if self.r.random() < 0.7 else "%s = %s" % (val, t)
+        inner = "forall<%s> { exists<%s> { %s } }" % (decl(u), decl(a), eq)
+        g0 = self.r.choice(["S0: Triv", "S0: Triv", "S0 = S0"])
+        body = "%s, %s" % (g0, inner) if self.r.random() < 0.6 else "%s, %s" % (inner, g0)
+        if len(outer) == 2 and self.r.random() < 0.5:
+            body += ", %s = S1<%s>" % (outer[1][1], outer[0][1])
+        return "exists<%s> { %s }" % (", ".join(v for _, v in outer), body)
 
     def goal_mixed(self):
         """unknowns in different universes tied by one atom: exists<outer> { forall<..> { exists<inner> { atom(inner, outer) } } }"""
@@ -221,7 +249,7 @@ def run(ctx):
     og = OwnGen(r)
     for _ in range(ctx.n(45, 900)):
         prog = og.program()
-        cases.append(("own", ("Case", sx.Str(prog), [sx.Str(og.goal_mixed() if j < 2 else og.goal()) for j in range(5)], k_multi, cpu)))
+        cases.append(("own", ("Case", sx.Str(prog), [sx.Str(og.goal_mixed() if j < 2 else (og.goal_nonpeel() if j < 4 else og.goal())) for j in range(6)], k_multi, cpu)))
     for _ in range(ctx.n(25, 600)):
         p = pg.gen_program(r)
         gg = pg.GoalGen(r, p)
@@ -351,7 +379,7 @@ def run(ctx):
     ctx.cov["wf_violations_by_family"] = vfam
     ctx.cov["answer_layer_panics_by_family"] = pfam
     ctx.cov["rule"] = ("programs x goals: (a) own generator: structs with type / lifetime / const parameters, traits with type / lifetime / const parameters, 3-9 impls of a pool of 20; goals = 1-4 nested forall/exists blocks "
-                       "binding types, lifetimes and consts, 1-3 atoms (Implemented / equality), optional hypothesis or inner quantifier; (b) vlib.proggen programs with existential goals; (c) the DESIGN section 5 witnesses. "
+                       "binding types, lifetimes and consts, 1-3 atoms (Implemented / equality), optional hypothesis or inner quantifier; (b) vlib.proggen programs with existential goals; (c) goals whose inner forall/exists prefix cannot be peeled (it sits in a conjunction: `exists<T> { G0, forall<U> { exists<'a | V | const N> { T = C<..> } } }`, invariant ADT positions, &, fn pointers), so that the query's universe count is smaller than the universes the solver creates; (d) the DESIGN section 5 witnesses. "
                        "Each goal is peeled+canonicalized by the real into_peeled_goal and solved by SLG solve, recursive solve and SLG solve_multiple (<= %d answers), each in a forked child with a %d s CPU limit. "
                        "Every Unique / Definite / Suggested / enumerated answer is counted as one evaluation; non-trivial = the query has at least one unknown and at least one answer came back." % (k_multi, cpu))
     if not ok:
